@@ -46,6 +46,8 @@ var harness = &simcore.Harness{
 	Config: genConfig,
 	New:    newSim,
 	MaxOps: 400,
+	// a sweep over every crash point of a long prune is one op; on a loaded 16-core box it can take minutes
+	RunTimeout: 15 * time.Minute,
 	Real: []string{"store.BlockStore (SaveBlock, PruneBlocks, all Load*)", "state.Store (Save, SaveABCIResponses, PruneStates, LoadValidators, LoadConsensusParams, LoadABCIResponses)",
 		"state.BlockExecutor.ApplyBlock incl. validateBlock and updateState", "consensus.Handshaker (replay of the last block with the real or the mock application after a crash)",
 		"proxy.AppConns with local ABCI clients", "types.ValidatorSet (UpdateWithChangeSet, IncrementProposerPriority, proto round trip)", "types.Block / PartSet / Commit / VoteSet (block and commit construction)"},
